@@ -1,0 +1,32 @@
+//go:build verif
+
+package skiplist
+
+import "unsafe"
+
+// Verification-only hooks and accessors (build tag verif).
+
+// VerifYieldHook is called at labelled points of package skiplist when non-nil.
+var VerifYieldHook func(point int)
+
+func verifYield(p int) {
+	if h := VerifYieldHook; h != nil {
+		h(p)
+	}
+}
+
+func (n *Node) VerifNext(level int) (*Node, bool) { return n.getNext(level) }
+func (s *Skiplist) VerifLevel() int               { return int(s.level) }
+func VerifCompare(cmp CompareFn, this, that unsafe.Pointer) int {
+	return compare(cmp, this, that)
+}
+
+// VerifState returns (liveCount of the current session, activeSeqno, freeSeqno,
+// isDestructorRunning, numAllocated, numFreed).
+func (ab *AccessBarrier) VerifState() (int32, uint64, uint64, int32, int64, int64) {
+	bs := (*BarrierSession)(ab.session)
+	return *bs.liveCount, ab.activeSeqno, ab.freeSeqno, ab.isDestructorRunning, ab.numAllocated, ab.numFreed
+}
+
+func (bs *BarrierSession) VerifLive() int32   { return *bs.liveCount }
+func (bs *BarrierSession) VerifSeqno() uint64 { return bs.seqno }
